@@ -2,7 +2,7 @@
    (Translation invariance: see C12_shift_* below / DESIGN.md.) *)
 From Coq Require Import List ZArith Bool.
 From JSL Require Import Base.Res SM.Types SM.Util SM.Handler SM.Step SM.Middleware SM.Inv SM.Example
-  SMP.StepInv SMP.Clock SMP.ClockStep SMP.ClockMain SM.ExampleShift.
+  SMP.StepInv SMP.Clock SMP.ClockStep SMP.ClockMain SM.ExampleShift SM.Events SMP.Reflect SMP.LiftProv SMP.Due.
 Import ListNotations.
 
 (* clock_b = nothing pending lies in the past (every PROCESSING operation ends >= now, every non-idle
@@ -83,3 +83,15 @@ Proof.
   split; [reflexivity|]. split; [reflexivity|]. vm_compute. discriminate.
 Qed.
 Print Assumptions C12_shift_refuted.
+
+(* event-exactness over whole runs of every instance: every timed transition of every micro-log is applied with the clock equal to its
+   component's occupied_till (ev_due, SMP/Due.v): time advances exactly to the earliest pending completion or arrival, never past one *)
+Theorem C12_events_fire_exactly_when_due_along_every_run :
+  forall (sigma : oracle) (i : inst) (fuel : nat) (x0 : state) (joker0 : Z) (ta : bool) (r : result) (m : mw)
+         (a : Z) (r' : result) (m' : mw) (lg : mlog),
+    inst_nonneg_b i = true ->
+    clock_b x0 = true -> wfs_b i x0 = true -> fresh2_b i x0 = true -> nodep_b x0 = true -> pre_ok_b x0 = true ->
+    reach sigma i fuel x0 joker0 ta r m -> mw_step sigma i fuel r m a = MOk r' m' lg -> chain_due (r_x r) lg.
+Proof. intros sigma i fuel x0 joker0 ta r m a r' m' lg Hnn. apply (run_due_ok sigma i Hnn); auto. Qed.
+Print Assumptions C12_events_fire_exactly_when_due_along_every_run.
+
